@@ -12,7 +12,7 @@ import os
 from vcheck import core, svcgen, svcreal
 
 FIXED = {'suggestCatchesAll': True, 'shortDeliveryOk': True, 'deleteCascadesOps': True,
-         'metadataAtomic': True, 'esFailureFinishesOp': True, 'createKeepsInfeasible': True, 'esAnswerFinishesOp': True}
+         'metadataAtomic': True, 'esFailureFinishesOp': True, 'createKeepsInfeasible': True, 'esAnswerFinishesOp': True, 'resumesAbandonedOp': True}
 
 W_CREATE = {'op': 'createStudy', 'owner': 'o', 'display': 's', 'state': 'ACTIVE'}
 SUGG = lambda n: {'kind': 'ok', 'sugg': [{'params': i + 1, 'md': []} for i in range(n)], 'delta': []}
@@ -65,6 +65,21 @@ WITNESSES = {
 }
 
 
+KEY_ABANDONED = 'crash-inside-suggest-leaves-operation-pending-for-that-worker'
+
+
+def probe_resume(be):
+  """Does SuggestTrials RESUME an unfinished operation of the asking worker (what a server that died inside
+  SuggestTrials leaves behind) or hand it back unchanged?  The record is put into the datastore directly (no history of
+  RPCs produces it on a repaired tree); c05_same_worker_resumed / c05_same_worker_wedge_counterexample."""
+  from google.longrunning import operations_pb2
+  rr = svcreal.make_runner(be)
+  rr.step(W_CREATE)
+  rr.ds.create_suggestion_operation(operations_pb2.Operation(name='owners/o/operations/suggestion/s/w/1', done=False))
+  r = rr.step({'op': 'suggest', 'client': 'w', 'count': 1, 'alg': SUGG(1)})
+  return bool(r.get('k') == 'op' and r['v']['done'] and r['v']['num'] == 1 and len(r.get('handed', [])) == 1), r
+
+
 def identify_flags(c, backends, report=()):
   """Returns {backend: cfg}.  A flag found in its defective variant is a property failure on the
   real code when its name is in `report`."""
@@ -82,6 +97,12 @@ def identify_flags(c, backends, report=()):
       cfg[flag] = good
       if not good and flag in report:
         c.prop_fail(key, '%s (backend %s)' % (what, be), {'backend': be, 'history': hist, 'real_responses': run['resps'], 'real_final': run['final']})
+    good, r = probe_resume(be)
+    c.traces += 1
+    cfg['resumesAbandonedOp'] = good
+    if not good and 'resumesAbandonedOp' in report:
+      c.prop_fail(KEY_ABANDONED, 'an unfinished suggestion operation of worker w (what a server that died inside SuggestTrials leaves behind) is handed back unchanged by every later SuggestTrials of that worker: %s (backend %s)' % (json.dumps(r)[:200], be),
+                  {'backend': be, 'history': 'CreateStudy; datastore.create_suggestion_operation(w/1, done=False); SuggestTrials(w, 1)', 'response': r})
     cfgs[be] = cfg
     c.flags[be] = dict(cfg)
   return cfgs
